@@ -1,6 +1,7 @@
 import Lean.Data.Json
 import GristModel.Doc
 import GristModel.Engine
+import GristModel.SchemaMeta
 open Lean
 namespace Grist.Driver.Engine
 open Grist.Doc
@@ -301,6 +302,9 @@ def handle (ds : DState) (j : Json) : DState × Except String Json :=
       | .ok ts => (ds, .ok (Json.mkObj [("partial", docToJson (d.filter (fun tb => ts.contains tb.id))),
                                         ("all_tables", toJson (d.map (·.id)))]))
       | .error _ => (ds, .ok (docToJson d))
+    | "schema_consistent" =>
+      -- C08: the model's decision procedure evaluated on this session's document
+      (ds, .ok (Json.mkObj [("consistent", Json.bool (schemaConsistentB (ds.doc sid)))]))
     | "apply" =>
       -- replica: apply a list of doc actions (stored of a bundle) with the data semantics only
       match j.getObjVal? "actions" >>= (·.getArr?) with
